@@ -447,7 +447,20 @@ fn render(cmd: Cmd, channel: Channel, payload: &Payload, phrase: &str, pass: &st
         args.extend(a);
         inv.env = e;
     }
+    // Both selectors given to a `sign` command: half of the time one of them is placed after the nested subcommand
+    // and its argument (where the unchanged tool does not take account options at all) - the pair must be refused
+    // wherever its halves stand
+    let mut moved: Vec<String> = vec![];
+    if matches!(sel, Selector::Both { .. }) && cmd.is_sign() && (salt / 13) % 2 == 1 {
+        if let Some(i) = args.iter().position(|a| a == "--account-index" || a.starts_with("--account-index=") || a == "--hd-path" || a.starts_with("--hd-path=")) {
+            let n = if args[i].contains('=') { 1 } else { 2 };
+            if i + n <= args.len() {
+                moved = args.drain(i..i + n).collect();
+            }
+        }
+    }
     args.extend(sub_tokens(cmd, channel, payload, salt / 11));
+    args.extend(moved);
     inv.args = args;
     if channel == Channel::Stdin || channel == Channel::DevStdin {
         inv = inv.stdin(&payload.bytes());
@@ -717,6 +730,16 @@ fn build_case(u: &mut U, cmd: Cmd, channel: Channel, forced: Option<(u8, Sources
                     _ => crate::refimpl::eip55(&a),
                 };
                 t.doc.insert_str(i + 1, &format!("\"from\":\"{text}\","));
+            }
+            Payload::Tx(t)
+        }
+        // one in six: the signature members of a JSON-RPC transaction object (copied from eth_getTransactionByHash):
+        // `sign` signs the digest the matching `hash` prints, whatever either makes of them
+        Payload::Tx(mut t) if matches!(cmd, Cmd::SignTx | Cmd::SignTxSigOnly) && u.ratio(1, 5) => {
+            if let Some(i) = t.doc.find('{') {
+                let v = ["\"0x1b\"", "\"0x25\"", "\"0x26\"", "\"0x0\"", "\"0x1\"", "27"][u.below(6)];
+                let key = if u.bool() { "v" } else { "yParity" };
+                t.doc.insert_str(i + 1, &format!("\"r\":\"0x{}\",\"s\":\"0x{}\",\"{key}\":{v},\"hash\":\"0x{}\",", hex_lower(&u.bytes(32)), hex_lower(&u.bytes(32)), hex_lower(&u.bytes(32))));
             }
             Payload::Tx(t)
         }
